@@ -269,7 +269,7 @@ class CoapAeadLog:
 def run_c06_coap(case, R):
     ops = case["ops"]
     names = [o[0] for o in ops]
-    faulty = {"replay", "replay-deep", "skip", "corrupt", "no-response", "network-error", "event-replay", "event-skip", "cancel", "event-bad"}
+    faulty = {"replay", "replay-deep", "skip", "corrupt", "no-response", "network-error", "event-replay", "event-skip", "cancel", "event-bad", "par2"}
     idx = [i for i, n in enumerate(names) if n in faulty]
     R.nt(bool(idx) and any(n in ("get", "put", "event", "event-replay") for n in names[idx[0] + 1:]))
     for n in set(names):
@@ -307,6 +307,15 @@ def run_c06_coap(case, R):
                     next_fault[0] = {"skip": {"skip": 1 + op[1] % 8}, "corrupt": {"corrupt": True}, "no-response": {"action": "no-response"},
                                      "network-error": {"action": "network-error"}}[name]
                     continue
+                if name == "par2":
+                    # two operations overlap in time; if both requests are ever in flight together, the reply to the first takes longer
+                    if not p.is_connected:
+                        continue
+                    w.reply_latencies[:] = [0.05, 0.01, 0.01, 0.01]
+                    a_ = asyncio.ensure_future(p.get_characteristics([(1, 10)]))
+                    b_ = asyncio.ensure_future(p.put_characteristics([(1, 11, value_for(11, op[1]))]) if op[1] & 1 else p.get_characteristics([(1, 12)]))
+                    await asyncio.gather(a_, b_, return_exceptions=True)
+                    w.reply_latencies[:] = []
                 if name in ("get", "put", "cancel"):
                     iid = [10, 11, 12, 16][op[1] % 4]
                     coro = p.put_characteristics([(1, iid, value_for(iid, op[2]))]) if (name == "put" or op[1] & 1) else p.get_characteristics([(1, iid), (1, 10)])
@@ -358,7 +367,9 @@ def run_c06_coap(case, R):
 
                     def fail(self, clause, msg, **ctx):
                         if clause == "C06.nonce-reused":
-                            path = "zero-reset" if "zero-reset" in mon.entry_path.values() else "other"
+                            # the zero reset sets the send counter to 0 whether or not the response then decrypts at 0
+                            zero_tried = any(len(a[1]) > 1 and int.from_bytes(a[1][-1][0][4:], "little") == 0 for a in mon.calls)
+                            path = "zero-reset" if "zero-reset" in mon.entry_path.values() or zero_tried else "other"
                         else:
                             path = mon.entry_path.get(self.entry, "unknown")
                             # a later duplicate of an acceptance that was itself a recovery: attribute it to the first offending path
@@ -380,7 +391,7 @@ def run_c06_coap(case, R):
 
 
 COAP_ALPHA = [("get", 0), ("put", 1, 2), ("replay", 1), ("replay", 7), ("replay-deep", 0), ("skip", 1), ("skip", 6), ("corrupt",), ("no-response",), ("event",), ("event-replay", 0),
-              ("event-skip", 0), ("cancel", 0, 5), ("reconnect",), ("event-bad", 11, 3)]
+              ("event-skip", 0), ("cancel", 0, 5), ("reconnect",), ("event-bad", 11, 3), ("par2", 0)]
 
 
 def enum_c06_coap(tier):
@@ -388,7 +399,7 @@ def enum_c06_coap(tier):
     warm = [["get", 0]] * 8
     for d in range(1, depth + 1):
         for seq in itertools.product(COAP_ALPHA, repeat=d):
-            if seq[-1][0] not in ("get", "put", "event", "cancel", "event-replay"):
+            if seq[-1][0] not in ("get", "put", "event", "cancel", "event-replay", "par2"):
                 continue
             yield {"ops": [list(o) for o in seq]}
             if any(o[0] == "replay-deep" for o in seq):
@@ -400,7 +411,7 @@ def c06_coap_histories(draw):
     ops = [["get", 0]] * draw(st.sampled_from([0, 0, 8, 12]))
     for _ in range(draw(st.integers(3, 30))):
         name = draw(st.sampled_from(["get", "get", "put", "put", "replay", "replay-deep", "replay-deep", "skip", "corrupt", "no-response", "network-error", "event", "event",
-                                     "event-replay", "event-skip", "cancel", "reconnect"]))
+                                     "event-replay", "event-skip", "cancel", "reconnect", "par2"]))
         if name == "event" and draw(st.integers(0, 3)) == 0:
             ops.append(["event-bad", draw(st.sampled_from([10, 11, 12, 14, 15, 99])), draw(st.sampled_from([0, 1, 3, 9]))])
             continue
@@ -409,7 +420,7 @@ def c06_coap_histories(draw):
 
 
 C06_LAYERS = [
-    Layer("coap-dfs", run_c06_coap, enumerate=enum_c06_coap, exhaustive=True, space="all sequences over 15 events to depth 3 (quick) / 4 (thorough) ending in a request or event (deep replays also after 8 warm-up requests)", min_nontrivial=100),
+    Layer("coap-dfs", run_c06_coap, enumerate=enum_c06_coap, exhaustive=True, space="all sequences over 16 events to depth 3 (quick) / 4 (thorough) ending in a request or event (deep replays also after 8 warm-up requests)", min_nontrivial=100),
     Layer("coap-generated", run_c06_coap, strategy=c06_coap_histories, n={"quick": 1500, "thorough": 25000}),
 ]
 
